@@ -94,6 +94,7 @@ func cmdCheck(args []string) int {
 		from, to int
 	}
 	var mustReach []reachReq
+	stopGroups := map[string]*stopGroup{}
 	for gi, g := range spec.Groups {
 		gr := &groupRun{spec: g, tmp: filepath.Join(tmp, fmt.Sprintf("g%d", gi))}
 		os.MkdirAll(gr.tmp, 0o755)
@@ -152,12 +153,19 @@ func cmdCheck(args []string) int {
 				first := pi == len(sweep)-1
 				cfg := mkConfig(js, p, *tier)
 				j := &jobState{cfg: cfg, w: w, entry: js.Entry, outcomes: map[string]int{}, reaches: map[string]bool{}}
+				j.stopAfter, j.countLabel = 24, func(l string) bool { return labelBelongs(spec.Labels, l) }
+				sgKey := fmt.Sprintf("%s/%s/%v", g.Pkg, js.Entry, js.NoReplay)
+				if stopGroups[sgKey] == nil {
+					stopGroups[sgKey] = &stopGroup{}
+				}
+				j.sg = stopGroups[sgKey]
 				gr.jobs = append(gr.jobs, j)
 				allJobs = append(allJobs, j)
 				if js.Canary && first {
 					ccfg := *cfg
 					ccfg.Canary = true
 					cj := &jobState{cfg: &ccfg, w: w, entry: js.Entry, outcomes: map[string]int{}, reaches: map[string]bool{}}
+					cj.stopAfter = 1
 					gr.canary = append(gr.canary, cj)
 					allJobs = append(allJobs, cj)
 				}
@@ -170,15 +178,15 @@ func cmdCheck(args []string) int {
 	// ---- aggregate ----
 	var (
 		paths, asserts, steps, forks, inconcl int
-		inconclMsgs                          []string
-		outcomes                             = map[string]int{}
-		samples                              []interface{}
-		jobsRun                              int
-		nontrivial                           int
-		canaryOK, canaryTotal                int
-		replayed, replayConfirmed            int
-		validated                            int
-		engineFail                           []string
+		inconclMsgs                           []string
+		outcomes                              = map[string]int{}
+		samples                               []interface{}
+		jobsRun                               int
+		nontrivial                            int
+		canaryOK, canaryTotal                 int
+		replayed, replayConfirmed             int
+		validated                             int
+		engineFail                            []string
 	)
 	type cand struct {
 		gr  *groupRun
@@ -462,7 +470,7 @@ func cmdCheck(args []string) int {
 	solverInfo := map[string]interface{}{}
 	totalQ := 0
 	for k, s := range stats {
-		solverInfo[k] = map[string]interface{}{"queries": s.Queries, "sat": s.Sat, "unsat": s.Unsat, "unknown": s.Unknown, "errors": s.Errors, "solver_time_s": round2(s.TimeS)}
+		solverInfo[k] = map[string]interface{}{"queries": s.Queries, "sat": s.Sat, "unsat": s.Unsat, "unknown": s.Unknown, "errors": s.Errors, "decided_by_second_solver": s.Rescued, "solver_time_s": round2(s.TimeS)}
 		totalQ += s.Queries
 	}
 	var bounds []string
@@ -486,33 +494,33 @@ func cmdCheck(args []string) int {
 		}
 	}
 	cov := map[string]interface{}{
-		"explanation":                   spec.Explain,
-		"evaluations":                   paths,
-		"distinct_nontrivial":           nontrivial,
-		"rule":                          "one evaluation = one symbolic path of a harness instance, decided for all values of its symbolic inputs by the SMT solver; distinct_nontrivial = number of distinct harness instances (entry x parameter tuple) with at least one discharged obligation",
-		"states":                        paths,
-		"transitions":                   steps,
-		"traces_validated_against_impl": validated,
-		"obligations":                   asserts + violations + inconcl,
-		"discharged":                    asserts,
-		"samples":                       samples,
-		"harness_instances":             jobsRun,
-		"forks":                         forks,
-		"path_outcomes":                 outcomes,
-		"inconclusive_instances":        inconcl,
-		"inconclusive_details":          inconclMsgs,
-		"solver":                        solverInfo,
-		"solver_queries":                totalQ,
-		"functions_encoded":             encoded,
-		"harness_files":                 fnames,
-		"bounds":                        bounds,
-		"outside_the_claim":             spec.Outside,
+		"explanation":                    spec.Explain,
+		"evaluations":                    paths,
+		"distinct_nontrivial":            nontrivial,
+		"rule":                           "one evaluation = one symbolic path of a harness instance, decided for all values of its symbolic inputs by the SMT solver; distinct_nontrivial = number of distinct harness instances (entry x parameter tuple) with at least one discharged obligation",
+		"states":                         paths,
+		"transitions":                    steps,
+		"traces_validated_against_impl":  validated,
+		"obligations":                    asserts + violations + inconcl,
+		"discharged":                     asserts,
+		"samples":                        samples,
+		"harness_instances":              jobsRun,
+		"forks":                          forks,
+		"path_outcomes":                  outcomes,
+		"inconclusive_instances":         inconcl,
+		"inconclusive_details":           inconclMsgs,
+		"solver":                         solverInfo,
+		"solver_queries":                 totalQ,
+		"functions_encoded":              encoded,
+		"harness_files":                  fnames,
+		"bounds":                         bounds,
+		"outside_the_claim":              spec.Outside,
 		"canaries_detected_and_replayed": fmt.Sprintf("%d/%d", canaryOK, canaryTotal),
-		"counterexamples_replayed":      replayed,
-		"counterexamples_reproduced":    replayConfirmed,
-		"engine_failures":               engineFail,
-		"exhaustive":                    false,
-		"trusted_base":                  []string{"go/ssa (x/tools v0.29.0) lowering", "symgo interpreter and stubs (see DESIGN.md 2.5)", "z3 4.8.12 / cvc5 1.0", "harness reference models"},
+		"counterexamples_replayed":       replayed,
+		"counterexamples_reproduced":     replayConfirmed,
+		"engine_failures":                engineFail,
+		"exhaustive":                     false,
+		"trusted_base":                   []string{"go/ssa (x/tools v0.29.0) lowering", "symgo interpreter and stubs (see DESIGN.md 2.5)", "z3 4.8.12 / cvc5 1.0", "harness reference models"},
 	}
 	ev := map[string]interface{}{
 		"property_id": id, "tier": *tier, "seed": seed, "level": spec.Level, "coverage": cov,
@@ -538,6 +546,11 @@ func cmdCheck(args []string) int {
 	}
 	if violations > 0 {
 		return 1
+	}
+	for _, j := range allJobs {
+		if j.stopped && !j.cfg.Canary {
+			engineFail = append(engineFail, fmt.Sprintf("%s%v: exploration was cut short after %d candidates, none of which was confirmed", j.entry, j.cfg.Params, j.counted))
+		}
 	}
 	if len(engineFail) > 0 {
 		for _, e := range engineFail {
